@@ -592,7 +592,8 @@ pub fn main_with(checks: Vec<Check>, extra: &[(&str, ExtraCmd)]) -> ! {
                 tier: Tier::parse(&args[5]),
                 seed: args[6].parse().unwrap(),
                 scratch: PathBuf::from(&args[7]),
-                strict: false,
+                // tooling only: search without known-finding exclusions to obtain reproductions
+                strict: std::env::var("VERIF_STRICT").is_ok(),
             };
             run_worker(check, &ctx)
         }
@@ -849,6 +850,15 @@ fn run_parent(check: &Check, tier: Tier) -> i32 {
                     let (part, signature) = rf.map(|r| (r.part, r.signature)).unwrap_or_default();
                     new_violations.push((
                         ViolationRec { part, case: Value::Null, signature, message: format!("saved regression case {} fails again", f.display()), shrunk: true },
+                        f.clone(),
+                    ));
+                }
+                Ok(None) => {
+                    // killed by a signal: the saved case takes the process down again
+                    let rf: Option<ReplayFile> = std::fs::read(&f).ok().and_then(|b| serde_json::from_slice(&b).ok());
+                    let (part, signature) = rf.map(|r| (r.part, r.signature)).unwrap_or_default();
+                    new_violations.push((
+                        ViolationRec { part, case: Value::Null, signature, message: format!("saved regression case {} aborts the process again", f.display()), shrunk: true },
                         f.clone(),
                     ));
                 }
